@@ -42,7 +42,7 @@ ObsInit(cfg) ==
    ffail |-> FALSE, skipfail |-> FALSE, retriedHookF |-> FALSE, retriedHookSkip |-> FALSE,
    lastFin |-> [s |-> "", failed |-> FALSE, retry |-> FALSE],
    stats |-> [serialIsolated |-> 0, delayed |-> 0, retried |-> 0, panics |-> 0,
-              fullSlots |-> 0, lateInsert |-> 0],
+              fullSlots |-> 0, lateInsert |-> 0, schedDiverged |-> 0],
    viol |-> {}]
 
 Inflight(o) == {s \in DOMAIN o.at : o.at[s].ph = "run"}
@@ -161,7 +161,7 @@ ObsEnd(o, rec) ==
                      "C08", "fail-fast-run-stopped-although-nothing-failed-finally">>,
                    <<o.tripped \/ \A s \in DOMAIN o.at : o.at[s].ph # "wait", "C05", "failed-attempt-with-budget-left-never-retried">>,
                    <<\A s \in DOMAIN o.at : o.at[s].ph # "run", "C08", "attempt-never-finished">>})
-       EXCEPT !.ph = "ended"]
+       EXCEPT !.ph = "ended", !.stats.schedDiverged = IF rec.sched_diverged THEN 1 ELSE 0]
 
 ---------------------------------------------------------------------------
 (* Scenario events: the per-attempt automaton (C02) and everything that    *)
